@@ -680,7 +680,13 @@ void parseFrame(void *frame, void *iface_ctx) {
         return;
     }
 
-    if (header->opcode == opcode_discover) {
+    /*
+     * Opcode numbers are only meaningful within a service: 0x00 is Discover
+     * for the two discovery services but QosInitializeSink for QoS diagnostics.
+     */
+    bool discovery_service = (header->tos == tos_discovery || header->tos == tos_quick_discovery);
+
+    if (discovery_service && header->opcode == opcode_discover) {
         lltd_discover_upper_header_t *disc_header =
             (lltd_discover_upper_header_t *)((uint8_t *)frame + sizeof(*header));
         uint16_t generation_host = lltd_ntohs(disc_header->generation);
@@ -697,7 +703,7 @@ void parseFrame(void *frame, void *iface_ctx) {
         } else if (*slot != generation_host) {
             *slot = generation_host;
         }
-    } else if (header->opcode == opcode_hello) {
+    } else if (discovery_service && header->opcode == opcode_hello) {
         lltd_hello_upper_header_t *hello_header =
             (lltd_hello_upper_header_t *)((uint8_t *)frame + sizeof(*header));
         uint16_t generation_host = lltd_ntohs(hello_header->generation);
